@@ -1,6 +1,7 @@
 ;@ module manager
+; Template over the element sort %S% of Manager.items.
 ; sumLen(lenOf, elems, k) = sum of lenOf(elems[i]) for i < k   (lenOf: the ghost length map; elems: the items backing array)
-;@ pred sumLen(items, k) -> Int := sumLen | heap G:$lenOf<TP_T> (Array TP_T Int) | expr $elems(items) | expr k
-(declare-fun sumLen ((Array TP_T Int) (Array Int TP_T) Int) Int)
-(assert (forall ((L (Array TP_T Int)) (E (Array Int TP_T))) (! (= (sumLen L E 0) 0) :pattern ((sumLen L E 0)))))
-(assert (forall ((L (Array TP_T Int)) (E (Array Int TP_T)) (k Int)) (! (=> (> k 0) (= (sumLen L E k) (+ (sumLen L E (- k 1)) (select L (select E (- k 1)))))) :pattern ((sumLen L E k)))))
+;@ pred sumLen(items, k) -> Int := sumLen.%S% sortof $elems(items)[0] | heap G:$lenOf<%S%> (Array %S% Int) | expr $elems(items) | expr k
+(declare-fun |sumLen.%S%| ((Array %S% Int) (Array Int %S%) Int) Int)
+(assert (forall ((L (Array %S% Int)) (E (Array Int %S%))) (! (= (|sumLen.%S%| L E 0) 0) :pattern ((|sumLen.%S%| L E 0)))))
+(assert (forall ((L (Array %S% Int)) (E (Array Int %S%)) (k Int)) (! (=> (> k 0) (= (|sumLen.%S%| L E k) (+ (|sumLen.%S%| L E (- k 1)) (select L (select E (- k 1)))))) :pattern ((|sumLen.%S%| L E k)))))
